@@ -8,7 +8,12 @@ RULE = ("libraries built from the model classes (any block mix incl. plain / mid
         "failed blocks, 0..n fields, keys of length 0..45 incl. non-ASCII) and libraries obtained by parse_string(text, parse_stack=[]) "
         "x value_column in {0..40,'auto'} x indents x multi-character separators x trailing_comma x custom failed comments "
         "({n}, {{ }}); bounded-exhaustive key length x column x trailing grid around the padding boundary; exhaustive short strings "
-        "over the line-boundary alphabet for str.splitlines; {n}-templates for str.format. distinct = distinct (library, format); "
+        "over the line-boundary alphabet for str.splitlines; {n}-templates for str.format; sessions on ONE Library and ONE format object "
+        "(oracle only): lists/dicts handed out by library.entries/strings/failed_blocks/preambles/comments/entries_dict edited by the "
+        "caller (at once or after later library calls), add/remove/replace, in-place edits of entries/fields/strings/comments, format "
+        "attributes changed between writes, writes that raise, a second Library sharing block objects - every write of the session is "
+        "judged against the blocks the library holds at that moment (views x edits x entrypoint bounded-exhaustive on a fixed library). "
+        "distinct = distinct (library, format); "
         "non-trivial = the library has an entry with a field or a failed block")
 TRUSTED = ["oracle instances: str.splitlines (ten line boundaries) and str.format on templates whose only replacement field is {n} "
            "are modelled and compared with CPython on every run (ops 62, 63); templates outside are skipped by the model"]
@@ -148,6 +153,71 @@ def rtext(rng):
         parts.append(s)
     return rng.choice(["\n", "\n\n", " ", "\r\n"]).join(parts) + rng.choice(["", "\n", "  "])
 
+VIEWS = ["entries", "strings", "failed_blocks", "preambles", "comments", "entries_dict"]
+VIEW_OPS = ["clear", "pop", "reverse", "append_foreign", "del_first", "double"]
+FMT_ATTRS = ["indent", "col", "sep", "trailing", "failed"]
+SESSION_BASE = [["entry", "article", "first", [["title", "{A title}"], ["year", "2020"], ["organization", "{Org}"]], None],
+                ["expl", "between"],
+                ["entry", "book", "second", [["author", "{Some One}"], ["isbn", "{123}"]], "raw second"],
+                ["string", "jan", '"January"', "@string{jan = \"January\"}"],
+                ["preamble", '"pre"'],
+                ["failed", "@broken{x,\n y"]]
+
+
+def rfmt_value(rng, attr):
+    if attr == "indent":
+        return rng.choice(INDENTS)
+    if attr == "col":
+        return rng.choice(list(range(41)) + ["auto"] * 40)
+    if attr == "sep":
+        return rng.choice(SEPS)
+    if attr == "trailing":
+        return rng.random() < 0.5
+    return rng.choice(COMMENTS[1:])
+
+
+def redit(rng):
+    kind = rng.choice(["set_field", "set_field", "setitem", "pop", "delitem", "rename", "rename", "revalue", "fields_set",
+                       "fields_clear", "fields_append", "key", "type", "other"])
+    return ["edit", rng.randint(0, 7), kind, rng.randint(0, 5), rkey(rng), rval(rng)]
+
+
+def rstep(rng, keys, skeys, allow_bad):
+    r = rng.random()
+    if r < 0.28:
+        return ["view", rng.choice(VIEWS[:1] * 4 + VIEWS), rng.choice(VIEW_OPS + ["keep"])]
+    if r < 0.36:
+        return ["held", rng.randint(0, 3), rng.choice(VIEW_OPS)]
+    if r < 0.46:
+        b = rentry(rng, keys, allow_bad) if rng.random() < 0.6 else rblock(rng, keys, skeys, allow_bad)
+        return ["add", [b] if rng.random() < 0.7 else [b, rblock(rng, keys, skeys, allow_bad)], rng.random() < 0.2, rng.random() < 0.5]
+    if r < 0.53:
+        return ["remove", rng.randint(0, 9)]
+    if r < 0.60:
+        return ["replace", rng.randint(0, 9), rentry(rng, keys, allow_bad) if rng.random() < 0.7 else rblock(rng, keys, skeys, allow_bad),
+                rng.random() < 0.5]
+    if r < 0.75:
+        return redit(rng)
+    if r < 0.82:
+        a = rng.choice(FMT_ATTRS + ["col"] * 3)
+        return ["fmt", a, rfmt_value(rng, a)]
+    if r < 0.95:
+        return ["write", rng.choice(["write", "write_string"])]
+    return ["write_sub", rng.choice(["write", "write_string"]), [rng.randint(0, 9) for _ in range(rng.randint(0, 4))]]
+
+
+def rsession(rng):
+    keys, skeys = [], []
+    allow_bad = rng.random() < 0.12
+    blocks = [rentry(rng, keys, allow_bad) if rng.random() < 0.6 else rblock(rng, keys, skeys, allow_bad)
+              for _ in range(rng.choice([0, 1, 2, 2, 3, 4, 5]))]
+    f = rfmt(rng)
+    if f is not None and rng.random() < 0.6:
+        f["col"] = "auto"
+    steps = [rstep(rng, keys, skeys, allow_bad) for _ in range(rng.randint(1, 8))]
+    steps.append(["write", rng.choice(["write", "write_string"])])
+    return {"mode": "session", "blocks": blocks, "fmt": f, "steps": steps}
+
 
 def generate(rng, tier):
     quick = tier == "quick"
@@ -204,6 +274,22 @@ def generate(rng, tier):
     for _ in range(300 if quick else 4000):
         t = "".join(rng.choice(toks[:7] if rng.random() < 0.7 else toks) for _ in range(rng.randint(0, 7)))
         cases.append({"stream": "template", "input": {"mode": "tmpl", "t": t, "n": rng.choice([0, 1, 7, 10, 123, 10 ** 6])}})
+    # 7. sessions (oracle only): one Library and one format object used over several steps.
+    #    7a. bounded-exhaustive: every copy-returning view x every edit of the returned container x entrypoint x column,
+    #        with and without a write before the view is taken, and with the view taken before / edited after a library call
+    for name in VIEWS:
+        for op in VIEW_OPS:
+            for via in ("write", "write_string"):
+                for col in ("auto", 9):
+                    f = {"indent": "  ", "col": col, "sep": "\n\n", "trailing": False, "failed": None}
+                    for pre in ([],) if col != "auto" else ([], [["write", via]],
+                                [["view", name, "keep"], ["add", [["entry", "misc", "third", [["k" * 17, "{v}"]], "r"]], False, True],
+                                 ["held", 0, op]]):
+                        cases.append({"stream": "session_grid", "input": {
+                            "mode": "session", "blocks": SESSION_BASE, "fmt": f, "steps": pre + [["view", name, op], ["write", via]]}})
+    #    7b. random sessions
+    for _ in range(400 if quick else 30000):
+        cases.append({"stream": "session", "input": rsession(rng)})
     return cases
 
 
@@ -224,6 +310,12 @@ def shrink(case):
                     nb = list(b)
                     nb[3] = b[3][:j] + b[3][j + 1:]
                     mk(blocks=bs[:i] + [nb] + bs[i + 1:])
+    elif inp.get("mode") == "session":
+        st, bs = inp["steps"], inp["blocks"]
+        for i in range(len(st)):
+            mk(steps=st[:i] + st[i + 1:])
+        for i in range(len(bs)):
+            mk(blocks=bs[:i] + bs[i + 1:])
     elif inp.get("mode") == "parse":
         t = inp["text"]
         for k in (2, 4, 8):
@@ -381,6 +473,204 @@ def expected_text(blocks, f):
 def fmt_state(o):
     return None if o is None else {k: (type(v).__name__, v) for k, v in vars(o).items()}
 
+# ------------------------------------------------------------------ sessions: one Library / one format object, several steps
+def judge(r, blocks, f, before, after):
+    """One write judged against the property: blocks = what the library held when it was written, f = the format settings."""
+    kind, exp, notes = expected_text(blocks, f)
+    ok, detail = True, ""
+    if r[0] == "exc":
+        if kind == "exc":
+            if exp != r[2]:
+                ok, detail = False, "writer raised %s, expected %s" % (r[2], exp)
+        elif kind == "text":
+            ok, detail = False, "writer raised %s on a library of str values" % r[2]
+    else:
+        text = r[1]
+        if kind == "exc":
+            ok, detail = False, "writer returned text, expected %s" % exp
+        elif kind == "text" and text != exp:
+            if not isinstance(text, str):
+                return False, "writer returned %r" % (text,), kind, exp, notes
+            k = next((i for i in range(min(len(text), len(exp))) if text[i] != exp[i]), min(len(text), len(exp)))
+            ok, detail = False, "written text differs from the format contract at offset %d: got %r, contract %r" % (
+                k, text[max(0, k - 30):k + 30], exp[max(0, k - 30):k + 30])
+    if ok and before != after:
+        ok, detail = False, "the BibtexFormat object was changed by writing: %r -> %r" % (before, after)
+    return ok, detail, kind, exp, notes
+
+
+def edit_view(view, op):
+    """The caller edits a list / dict the library handed out.  The library itself is not touched."""
+    from bibtexparser import model as M
+    foreign = M.Entry("misc", "foreign", [M.Field("k" * 50, "{not in the library}")], start_line=0, raw="foreign")
+    try:
+        if isinstance(view, dict):
+            if op in ("clear", "reverse"):
+                view.clear()
+            elif op in ("pop", "del_first"):
+                view.pop(next(iter(view)))
+            else:
+                view["foreign"] = foreign
+        elif op == "clear":
+            while view:
+                view.pop()
+        elif op == "pop":
+            view.pop()
+        elif op == "reverse":
+            view.reverse()
+        elif op == "append_foreign":
+            view.append(foreign)
+        elif op == "del_first":
+            del view[0]
+        elif op == "double":
+            view.extend(list(view))
+    except (IndexError, KeyError, StopIteration):
+        pass
+
+
+def edit_block(blocks, st):
+    """In-place edit of a block the library holds, through the public setters of the model classes."""
+    from bibtexparser import model as M
+    _, i, kind, j, k, v = st
+    entries = [b for b in blocks if isinstance(b, M.Entry)]
+    if kind == "other" or not entries:
+        others = [b for b in blocks if isinstance(b, (M.String, M.Preamble, M.ExplicitComment, M.ImplicitComment))]
+        if not others:
+            return "noop"
+        b = others[i % len(others)]
+        if isinstance(b, M.String):
+            if j % 2:
+                b.key = k
+            else:
+                b.value = v
+        elif isinstance(b, M.Preamble):
+            b.value = v
+        else:
+            b.comment = v
+        return "edit_" + type(b).__name__
+    e = entries[i % len(entries)]
+    fs = e.fields
+    if kind == "set_field":
+        e.set_field(M.Field(k, v))
+    elif kind == "setitem":
+        e[fs[j % len(fs)].key if (fs and j % 2) else k] = v
+    elif kind == "pop":
+        e.pop(fs[j % len(fs)].key if fs else k)
+    elif kind == "delitem":
+        del e[fs[j % len(fs)].key if fs else k]
+    elif kind == "rename":
+        if fs:
+            fs[j % len(fs)].key = k
+    elif kind == "revalue":
+        if fs:
+            fs[j % len(fs)].value = v
+    elif kind == "fields_set":
+        e.fields = [M.Field(k, v, 1)] + list(fs[:j])
+    elif kind == "fields_clear":
+        e.fields = []
+    elif kind == "fields_append":
+        fs.append(M.Field(k, v))
+    elif kind == "key":
+        e.key = k
+    elif kind == "type":
+        e.entry_type = k or "t"
+    return "edit_" + kind
+
+
+def set_fmt(fo, f, attr, val):
+    name = {"indent": "indent", "col": "value_column", "sep": "block_separator", "trailing": "trailing_comma",
+            "failed": "parsing_failed_comment"}[attr]
+    setattr(fo, name, val)
+    f[attr] = val
+
+
+def run_session(inp):
+    import bibtexparser
+    import implutil
+    from bibtexparser import writer
+    from bibtexparser.library import Library
+    lib = Library([build_block(d) for d in inp["blocks"]])
+    f = None if inp.get("fmt") is None else dict(inp["fmt"])
+    fo = make_fmt(f)
+    held = []
+    tags = set()
+    agg = {"fields": 0, "failed": 0, "writes": 0, "after_edit": 0}
+    dirty = False
+    summary = ""
+    for n, st in enumerate(inp["steps"]):
+        op = st[0]
+        if op == "view":
+            v = getattr(lib, st[1])
+            held.append(v)
+            if st[2] != "keep":
+                edit_view(v, st[2])
+                dirty = True
+            tags.add("view_" + st[1])
+        elif op == "held":
+            if held:
+                edit_view(held[st[1] % len(held)], st[2])
+                dirty = True
+                tags.add("held_view_edited")
+        elif op == "add":
+            bs = [build_block(d) for d in st[1]]
+            r = implutil.guarded(lambda: lib.add(bs if (len(bs) > 1 or st[3]) else bs[0], fail_on_duplicate_key=st[2]))
+            tags.add("add" if r[0] == "ok" else "add_raised")
+            dirty = True
+        elif op == "remove":
+            cur = list(lib.blocks)
+            if cur:
+                r = implutil.guarded(lambda: lib.remove(cur[st[1] % len(cur)]))
+                tags.add("remove" if r[0] == "ok" else "remove_raised")
+                dirty = True
+        elif op == "replace":
+            cur = list(lib.blocks)
+            if cur:
+                nb = build_block(st[2])
+                r = implutil.guarded(lambda: lib.replace(cur[st[1] % len(cur)], nb, fail_on_duplicate_key=st[3]))
+                tags.add("replace" if r[0] == "ok" else "replace_raised")
+                dirty = True
+        elif op == "edit":
+            r = implutil.guarded(lambda: edit_block(list(lib.blocks), st))
+            tags.add(r[1] if r[0] == "ok" and isinstance(r[1], str) else "edit_raised")
+            dirty = True
+        elif op == "fmt":
+            if fo is not None:
+                set_fmt(fo, f, st[1], st[2])
+                tags.add("fmt_changed_between_writes" if agg["writes"] else "fmt_set")
+                dirty = True
+        elif op in ("write", "write_sub"):
+            target = lib
+            if op == "write_sub":
+                cur = list(lib.blocks)
+                target = Library([cur[i % len(cur)] for i in st[2]] if cur else [])
+                tags.add("second_library_sharing_blocks")
+            blocks = list(target.blocks)
+            before = fmt_state(fo)
+            if st[1] == "write_string":
+                r = implutil.guarded(lambda: bibtexparser.write_string(target, unparse_stack=[], bibtex_format=fo))
+            else:
+                r = implutil.guarded(lambda: writer.write(target, fo))
+            after = fmt_state(fo)
+            ok, detail, kind, exp, notes = judge(r, blocks, f, before, after)
+            agg["writes"] += 1
+            agg["fields"] += notes["fields"]
+            agg["failed"] += notes["failed"]
+            if dirty and agg["writes"] > 1:
+                agg["after_edit"] += 1
+            dirty = False
+            if r[0] == "exc":
+                tags.add("write_raised_" + r[2])
+                if kind == "exc":
+                    tags.add("expects_" + exp)
+            if f and f["col"] == "auto":
+                tags.add("col_auto")
+            summary = ("raised " + r[2]) if r[0] == "exc" else repr(r[1])[:120]
+            if not ok:
+                return False, "step %d %r of the session: %s" % (n, st[:2], detail), agg, tags, summary
+    if agg["after_edit"]:
+        tags.add("written_again_after_changes")
+    return True, "", agg, tags, summary
+
 
 def impl(case):
     import enc
@@ -425,6 +715,13 @@ def impl(case):
                 "oracle": {"ok": ok, "detail": "value_column = %r: raised=%r after=%r" % (v, raised, after)},
                 "nontrivial": True, "key": "S" + repr(v), "tags": ["setter"], "summary": "raised=%r after=%r" % (raised, after)}
 
+    if mode == "session":
+        ok, detail, agg, tags, summary = run_session(inp)
+        return {"sx_in": None, "sx_out": None, "oracle": {"ok": ok, "detail": detail},
+                "nontrivial": bool(agg["fields"] or agg["failed"]),
+                "key": json.dumps(["session", inp["blocks"], inp.get("fmt"), inp["steps"]], sort_keys=True),
+                "tags": ["session"] + sorted(tags), "summary": "%d writes; last: %s" % (agg["writes"], summary)}
+
     import bibtexparser
     from bibtexparser import writer
     from bibtexparser.library import Library
@@ -447,29 +744,15 @@ def impl(case):
     else:
         r = implutil.guarded(lambda: writer.write(lib, fo))
     after = fmt_state(fo)
-    kind, exp, notes = expected_text(blocks, f)
+    ok, detail, kind, exp, notes = judge(r, blocks, f, before, after)
     rec = {"sx_in": sx_in, "key": json.dumps([inp.get("blocks"), inp.get("text"), f], sort_keys=True)}
-    ok, detail = True, ""
     if r[0] == "exc":
         rec["sx_out"] = implutil.r_exc(r[1])
         rec["summary"] = "raised " + r[2]
-        if kind == "exc":
-            if exp != r[2]:
-                ok, detail = False, "writer raised %s, expected %s" % (r[2], exp)
-        elif kind == "text":
-            ok, detail = False, "writer raised %s on a library of str values" % r[2]
     else:
         text = r[1]
         rec["sx_out"] = implutil.r_ok(enc.enc_str(text)) if isinstance(text, str) else implutil.r_ok([99])
         rec["summary"] = repr(text)[:200]
-        if kind == "exc":
-            ok, detail = False, "writer returned text, expected %s" % exp
-        elif kind == "text" and text != exp:
-            k = next((i for i in range(min(len(text), len(exp))) if text[i] != exp[i]), min(len(text), len(exp)))
-            ok, detail = False, "written text differs from the format contract at offset %d: got %r, contract %r" % (
-                k, text[max(0, k - 30):k + 30], exp[max(0, k - 30):k + 30])
-    if ok and before != after:
-        ok, detail = False, "the BibtexFormat object was changed by writing: %r -> %r" % (before, after)
     if any(x == 99 for b in enc_blocks for x in b[:1]):
         rec["sx_in"] = None
     rec["oracle"] = {"ok": ok, "detail": detail}
